@@ -1265,7 +1265,7 @@ def corpus(prop):
 
 
 def generate(prop, rng, tier):
-    count = {"quick": 1300, "thorough": 16000, "search": 3000}[tier]
+    count = {"quick": 1200, "thorough": 16000, "search": 3000}[tier]
     fns = list(ALL_FNS)
     # tree-returning and copying functions get twice the share of the pure readers
     weights = [2.5 if f in TREEFN else 1.5 if f in EXPORT else 1.0 for f in fns]
